@@ -3,7 +3,8 @@
 
    Configuration: forced = [has, key, list] (one forced-host entry: host key as spelled in the
    configuration file, and its server list; has = FALSE: no entry), try = the try list,
-   reg = the registered servers (configured servers can be unregistered at run time).
+   reg = the registered servers (configured servers can be unregistered at run time), ren = those of
+   them that were re-registered through the API under an upper-case spelling of their name.
    The player joins with handshake address vh (code points; may carry Forge markers after a NUL
    and TCPShield real-ip data after "///") and is, in order, failed by the servers it is sent to:
    fails is the sequence of failure kinds, the k-th connection attempt (whatever server it goes to)
@@ -32,6 +33,7 @@ Servers == {Order[i] : i \in 1..Len(Order)}
 CONSTANTS MaxForced, MaxTry, MaxFail,
           FailKinds,
           MinReg,       \* least number of registered servers
+          Renames,      \* BOOLEAN: also choose a subset of servers registered under an upper-case name
           NVH           \* use the first NVH spellings of VHostTable (0 = all)
 
 Lower(c) == IF c \in 65..90 THEN c + 32 ELSE c
@@ -100,27 +102,30 @@ CleanOK == \A i \in 1..Len(VHostTable) : Clean(VHostTable[i][1]) = VHostTable[i]
 
 SeqsUpTo(S, n) == UNION {[1..k -> S] : k \in 0..n}
 
-VARIABLES forced, try, vh, reg, fails,     \* the history's inputs (chosen one by one in the "c*" phases)
+VARIABLES forced, try, vh, reg, ren, fails,  \* the history's inputs (chosen one by one in the "c*" phases)
           st,        \* "c1".."c6" | "new" | "connecting" | "connected" | "disconnected"
           cands, cursor, target, log, kicks
-vars == <<forced, try, vh, reg, fails, st, cands, cursor, target, log, kicks>>
+vars == <<forced, try, vh, reg, ren, fails, st, cands, cursor, target, log, kicks>>
 
 NoForced == [has |-> FALSE, key |-> <<>>, list |-> <<>>]
 
-Init == /\ forced = NoForced /\ try = <<>> /\ vh = <<>> /\ reg = {} /\ fails = <<>>
+Init == /\ forced = NoForced /\ try = <<>> /\ vh = <<>> /\ reg = {} /\ ren = {} /\ fails = <<>>
         /\ st = "c1" /\ cands = <<>> /\ cursor = 1 /\ target = "" /\ log = <<>> /\ kicks = 0
 
 Rest == UNCHANGED <<cands, cursor, target, log, kicks>>
-C1 == st = "c1" /\ st' = "c2" /\ Rest /\ UNCHANGED <<try, vh, reg, fails>>
+C1 == st = "c1" /\ st' = "c2" /\ Rest /\ UNCHANGED <<try, vh, reg, ren, fails>>
       /\ forced' \in [has : {TRUE}, key : Keys, list : SeqsUpTo(Servers, MaxForced)] \cup {NoForced}
-C2 == st = "c2" /\ st' = "c3" /\ Rest /\ UNCHANGED <<forced, vh, reg, fails>> /\ try' \in SeqsUpTo(Servers, MaxTry)
-C3 == st = "c3" /\ st' = "c4" /\ Rest /\ UNCHANGED <<forced, try, reg, fails>> /\ vh' \in VHosts
+C2 == st = "c2" /\ st' = "c3" /\ Rest /\ UNCHANGED <<forced, vh, reg, ren, fails>> /\ try' \in SeqsUpTo(Servers, MaxTry)
+C3 == st = "c3" /\ st' = "c4" /\ Rest /\ UNCHANGED <<forced, try, reg, ren, fails>> /\ vh' \in VHosts
 C4 == st = "c4" /\ st' = "c5" /\ Rest /\ UNCHANGED <<forced, try, vh, fails>>
       /\ reg' \in {S \in SUBSET Servers : Cardinality(S) >= MinReg}
+      \* registered servers that were re-registered through the API under an upper-case name
+      \* ("S2" for "s2"); server names are case-insensitive, so this changes nothing in the model
+      /\ ren' \in (IF Renames THEN SUBSET reg' ELSE {{}})
 \* the number of failures first, then their kinds (so that random walks see every length equally often)
-C5 == st = "c5" /\ Rest /\ UNCHANGED <<forced, try, vh, reg>>
+C5 == st = "c5" /\ Rest /\ UNCHANGED <<forced, try, vh, reg, ren>>
       /\ \E n \in 0..MaxFail : fails' = [i \in 1..n |-> "?"] /\ st' = (IF n = 0 THEN "new" ELSE "c6")
-C6 == st = "c6" /\ st' = "new" /\ Rest /\ UNCHANGED <<forced, try, vh, reg>> /\ fails' \in [1..Len(fails) -> FailKinds]
+C6 == st = "c6" /\ st' = "new" /\ Rest /\ UNCHANGED <<forced, try, vh, reg, ren>> /\ fails' \in [1..Len(fails) -> FailKinds]
 
 Go(cs, i) == IF i = 0 THEN /\ st' = "disconnected" /\ UNCHANGED <<cursor, target, log>>
              ELSE /\ st' = "connecting" /\ cursor' = i /\ target' = cs[i] /\ log' = Append(log, cs[i])
@@ -128,14 +133,14 @@ Go(cs, i) == IF i = 0 THEN /\ st' = "disconnected" /\ UNCHANGED <<cursor, target
 Join == /\ st = "new"
         /\ cands' = Candidates(forced, try, vh)
         /\ Go(cands', NextIdx(cands', 1, reg, {}))
-        /\ UNCHANGED <<forced, try, vh, reg, fails, kicks>>
+        /\ UNCHANGED <<forced, try, vh, reg, ren, fails, kicks>>
 
 Outcome == /\ st = "connecting"
            /\ IF Len(log) > Len(fails)
               THEN st' = "connected" /\ UNCHANGED <<cursor, target, log, kicks>>
               ELSE /\ kicks' = kicks + 1
                    /\ Go(cands, NextIdx(cands, From(cursor, fails[Len(log)]), reg, Excluded(target, fails[Len(log)], reg)))
-           /\ UNCHANGED <<forced, try, vh, reg, fails, cands>>
+           /\ UNCHANGED <<forced, try, vh, reg, ren, fails, cands>>
 
 Next == C1 \/ C2 \/ C3 \/ C4 \/ C5 \/ C6 \/ Join \/ Outcome
 Spec == Init /\ [][Next]_vars
@@ -156,6 +161,6 @@ DisconnectMeansNoneLeft ==
 Terminal == st \in {"connected", "disconnected"}
 \* a history is exported when it used all its failures (or ended before it could)
 Emit == (Terminal /\ (st = "disconnected" \/ Len(log) = Len(fails) + 1)) =>
-            PrintT(<<"HIST", ToJson([forced |-> forced, try |-> try, vh |-> vh, reg |-> reg, fails |-> fails,
+            PrintT(<<"HIST", ToJson([forced |-> forced, try |-> try, vh |-> vh, reg |-> reg, ren |-> ren, fails |-> fails,
                                      log |-> log, st |-> st])>>)
 =============================================================================
